@@ -177,11 +177,192 @@ def gen_handles(src_root):
 
 
 # --------------------------------------------------------------------------------------
+# fg_setup.setup: objective -> (loss handle, gradient handle, lower bound) table + valid_* data-domain predicates
+# --------------------------------------------------------------------------------------
+
+def coq_handle(n):
+    return n + "_" if n in ("beta", "gamma") else n
+
+
+def gen_fg_setup(src_root):
+    """Strict templates (fail-closed): `setup` must be one if/elif chain on `objective == Objectives.X` whose branches
+    consist of  [if data is not None and not valid_K(data): raise]  [if additional_parameter is None: raise]
+    function_handle = handles.F | partial(handles.F, kw=additional_parameter)   (same for gradient_handle)
+    lower_bound = -np.inf | <number>;  final else raises;  return function_handle, gradient_handle, lower_bound."""
+    hpath = os.path.join(src_root, "pyttb", "gcp", "handles.py")
+    htree = ast.parse(open(hpath).read())
+    hfuncs = find_funcs(htree)
+    members = None
+    for n in htree.body:
+        if isinstance(n, ast.ClassDef) and n.name == "Objectives":
+            members = [s_.targets[0].id for s_ in n.body if isinstance(s_, ast.Assign)]
+    if not members:
+        raise Unsupported("handles.py: Objectives enum not found")
+    path = os.path.join(src_root, "pyttb", "gcp", "fg_setup.py")
+    funcs = find_funcs(ast.parse(open(path).read()))
+    for need in ("setup", "valid_nonneg", "valid_binary", "valid_natural"):
+        if need not in funcs:
+            raise Unsupported(f"fg_setup.py: function {need} not found")
+    f = funcs["setup"]
+    if [a.arg for a in f.args.args] != ["objective", "data", "additional_parameter"] or f.args.vararg or f.args.kwarg or f.args.kwonlyargs:
+        fail(f, "setup parameters")
+    body = strip_doc(f.body)
+    if len(body) != 2 or not isinstance(body[0], ast.If) or not isinstance(body[1], ast.Return):
+        fail(f, "setup body must be one if/elif chain followed by return")
+    if ast.dump(body[1].value) != dump("(function_handle, gradient_handle, lower_bound)"):
+        fail(body[1], "return")
+    valid_names = ("valid_binary", "valid_natural", "valid_nonneg")
+
+    def handle(v, node):
+        """-> (handle name, keyword or None)"""
+        if isinstance(v, ast.Attribute) and ast.dump(v.value) == dump("handles") and v.attr in hfuncs:
+            if len(hfuncs[v.attr].args.args) != 2:
+                fail(node, "plain handle must take (data, model)")
+            return v.attr, None
+        if isinstance(v, ast.Call) and isinstance(v.func, ast.Name) and v.func.id == "partial" and len(v.args) == 1 \
+                and len(v.keywords) == 1 and ast.dump(v.keywords[0].value) == dump("additional_parameter"):
+            h = v.args[0]
+            if isinstance(h, ast.Attribute) and ast.dump(h.value) == dump("handles") and h.attr in hfuncs:
+                ps = [a.arg for a in hfuncs[h.attr].args.args]
+                if len(ps) == 3 and ps[2] == v.keywords[0].arg:
+                    return h.attr, v.keywords[0].arg
+        fail(node, "handle expression")
+
+    def bound(v, node):
+        if ast.dump(v) == dump("-np.inf"):
+            return "NegInf"
+        if isinstance(v, ast.Constant) and isinstance(v.value, (int, float)) and not isinstance(v.value, bool):
+            return f"(Finite {dec_to_R(v.value)})"
+        fail(node, "lower bound")
+
+    arms = {}
+    node = body[0]
+    while True:
+        t = node.test
+        if not (isinstance(t, ast.Compare) and len(t.ops) == 1 and isinstance(t.ops[0], ast.Eq) and ast.dump(t.left) == dump("objective")
+                and isinstance(t.comparators[0], ast.Attribute) and ast.dump(t.comparators[0].value) == dump("Objectives")):
+            fail(node, "branch test must be objective == Objectives.X")
+        name = t.comparators[0].attr
+        if name not in members or name in arms:
+            fail(node, "unknown or repeated objective")
+        need_valid, need_param, fh, gh, lb = None, False, None, None, None
+        for st in node.body:
+            if isinstance(st, ast.If) and not st.orelse and len(st.body) == 1 and isinstance(st.body[0], ast.Raise):
+                matched = False
+                for vn in valid_names:
+                    if ast.dump(st.test) == dump(f"data is not None and not {vn}(data)"):
+                        if need_valid or fh:
+                            fail(st, "data check position")
+                        need_valid, matched = vn, True
+                if ast.dump(st.test) == dump("additional_parameter is None"):
+                    if fh:
+                        fail(st, "parameter check position")
+                    need_param, matched = True, True
+                if not matched:
+                    fail(st, "guard")
+            elif isinstance(st, ast.Assign) and len(st.targets) == 1 and isinstance(st.targets[0], ast.Name):
+                tg = st.targets[0].id
+                if tg == "function_handle" and fh is None:
+                    fh = handle(st.value, st)
+                elif tg == "gradient_handle" and gh is None:
+                    gh = handle(st.value, st)
+                elif tg == "lower_bound" and lb is None:
+                    lb = bound(st.value, st)
+                else:
+                    fail(st, "assignment")
+            else:
+                fail(st, "statement")
+        if fh is None or gh is None or lb is None:
+            fail(node, "branch must set function_handle, gradient_handle and lower_bound")
+        if (fh[1] is None) != (gh[1] is None) or ((fh[1] is not None) and not need_param):
+            fail(node, "extra parameter must be checked for None and given to both handles")
+        arms[name] = (need_valid, need_param, fh, gh, lb)
+        if len(node.orelse) == 1 and isinstance(node.orelse[0], ast.If):
+            node = node.orelse[0]
+            continue
+        if not (len(node.orelse) == 1 and isinstance(node.orelse[0], ast.Raise)):
+            fail(node, "final else must raise")
+        break
+
+    def entry_pred(e, arr):
+        """entry-wise predicate of bool(np.all(<e>)) over the array expression `arr` (ast.dump text)"""
+        if not (isinstance(e, ast.Call) and ast.dump(e.func) == dump("bool") and len(e.args) == 1
+                and isinstance(e.args[0], ast.Call) and ast.dump(e.args[0].func) == dump("np.all") and len(e.args[0].args) == 1
+                and not e.args[0].keywords):
+            fail(e, "validity predicate must be bool(np.all(...))")
+        q = e.args[0].args[0]
+        if isinstance(q, ast.Compare) and len(q.ops) == 1 and isinstance(q.comparators[0], ast.Constant) \
+                and isinstance(q.comparators[0].value, (int, float)):
+            c = dec_to_R(q.comparators[0].value)
+            if ast.dump(q.left) == arr and isinstance(q.ops[0], ast.Gt):
+                return f"v > {c}"
+            if ast.dump(q.left) == arr and isinstance(q.ops[0], ast.Eq):
+                return f"v = {c}"
+            if isinstance(q.left, ast.BinOp) and isinstance(q.left.op, ast.Mod) and ast.dump(q.left.left) == arr \
+                    and ast.dump(q.left.right) == dump("1") and isinstance(q.ops[0], ast.Eq) and q.comparators[0].value == 0:
+                return "exists k : Z, v = IZR k"
+        if isinstance(q, ast.Call) and ast.dump(q.func) == dump("np.isin") and len(q.args) == 2 and not q.keywords \
+                and isinstance(q.args[0], ast.Call) and ast.dump(q.args[0].func) == dump("np.unique") \
+                and len(q.args[0].args) == 1 and ast.dump(q.args[0].args[0]) == arr and isinstance(q.args[1], ast.List) \
+                and all(isinstance(x, ast.Constant) and isinstance(x.value, (int, float)) for x in q.args[1].elts) and q.args[1].elts:
+            return " \\/ ".join(f"v = {dec_to_R(x.value)}" for x in q.args[1].elts)
+        fail(e, "validity predicate")
+
+    def valid_def(vn):
+        b = strip_doc(funcs[vn].body)
+        isin = dump("isinstance(data, ttb.sptensor)")
+        if len(b) == 2 and isinstance(b[0], ast.If) and ast.dump(b[0].test) == isin and not b[0].orelse \
+                and len(b[0].body) == 1 and isinstance(b[0].body[0], ast.Return) and isinstance(b[1], ast.Return):
+            sp = entry_pred(b[0].body[0].value, dump("data.vals"))
+            de = entry_pred(b[1].value, dump("data.data"))
+        elif len(b) == 2 and isinstance(b[0], ast.If) and ast.dump(b[0].test) == isin \
+                and [ast.dump(x) for x in b[0].body] == [ast.dump(ast.parse("vals = data.vals").body[0])] \
+                and [ast.dump(x) for x in b[0].orelse] == [ast.dump(ast.parse("vals = data.data").body[0])] \
+                and isinstance(b[1], ast.Return):
+            sp = de = entry_pred(b[1].value, dump("vals"))
+        else:
+            fail(funcs[vn], "validity function shape")
+        return (f"(* {vn}(data) holds iff every stored value (sparse: data.vals) / every entry (dense: data.data) v satisfies: *)\n"
+                f"Definition {vn}_entry (sparse : bool) (v : R) : Prop :=\n  if sparse then {sp} else {de}.\n")
+
+    out = ["(* GENERATED by tools/pyx2v.py from pyttb/gcp/fg_setup.py (and the Objectives enum of handles.py) — do not edit *)",
+           "From Coq Require Import Reals ZArith.", "From PV Require Import Np.NpR Gen.GenHandles.", "Local Open Scope R_scope.", "",
+           "Inductive Objectives := " + " | ".join(members) + ".",
+           "(* lower bound on the model entries: -np.inf or a number *)",
+           "Inductive lbound := NegInf | Finite (b : R).",
+           "(* what setup asks about the data: the results of the valid_* calls (data = None: no data given) *)",
+           "Record datachk := { valid_binary : bool; valid_natural : bool; valid_nonneg : bool }.", ""]
+    for vn in valid_names:
+        out.append(valid_def(vn))
+    out.append("Definition setup (objective : Objectives) (data : option datachk) (additional_parameter : option R)")
+    out.append("  : option ((R -> R -> R) * (R -> R -> R) * lbound) :=")
+    out.append("  match objective with")
+    for mname in members:
+        if mname not in arms:
+            out.append(f"  | {mname} => None")
+            continue
+        need_valid, need_param, fh, gh, lb = arms[mname]
+
+        def hx(h):
+            return coq_handle(h[0]) if h[1] is None else f"(fun data_ model_ => {coq_handle(h[0])} data_ model_ p_)"
+        core = f"Some ({hx(fh)}, {hx(gh)}, {lb})"
+        if need_param:
+            core = f"match additional_parameter with None => None | Some p_ => {core} end"
+        if need_valid:
+            core = f"if (match data with Some d_ => negb ({need_valid} d_) | None => false end) then None else\n      {core}"
+        out.append(f"  | {mname} =>\n      {core}")
+    out.append("  end.")
+    return "\n".join(out) + "\n", ["setup"] + list(valid_names)
+
+
+# --------------------------------------------------------------------------------------
 # Integer / index back-end
 # --------------------------------------------------------------------------------------
 
 COQ_TY = {"int": "Z", "optint": "option Z", "vec": "vec", "optvec": "option vec", "bvec": "bvec",
-          "bool": "bool", "mat": "mat", "order": "memorder", "nil": "vec"}
+          "bool": "bool", "mat": "mat", "order": "memorder", "nil": "vec", "matlist": "list mat",
+          "cyc": "option cyclic", "optmat": "option mat"}
+ELEM_TY = {"vec": "int", "mat": "vec", "matlist": "mat", "nil": "int"}
 
 
 def dump(src):
@@ -194,6 +375,29 @@ class IntTr:
         self.ret = fenv["returns"]          # list of types of the returned tuple
         self.known = known_funcs            # translated function name -> (param types, return types)
         self.fresh = 0
+        self.options = fenv.get("options", [])
+        self.guards = []                    # side conditions (index in range, divisor non-zero) of the statement being translated
+        self.loops = []                     # stack of loop-carried variable lists (innermost last)
+
+    # -- guards: conditions under which evaluating the current statement's expressions raises ------------
+    def guard(self, text):
+        if text not in self.guards:
+            self.guards.append(text)
+
+    def scoped(self, fn):
+        """run fn() collecting the guards it produces separately; returns (result, guards)"""
+        saved = self.guards
+        self.guards = []
+        try:
+            r = fn()
+            g = self.guards
+        finally:
+            self.guards = saved
+        return r, g
+
+    @staticmethod
+    def conj(gs):
+        return gs[0] if len(gs) == 1 else "(" + " && ".join(gs) + ")"
 
     # -- expressions ------------------------------------------------------------------
     def expr(self, e, cur):
@@ -224,23 +428,56 @@ class IntTr:
                 fail(e, "not")
             return f"(negb {t})", "bool"
         if isinstance(e, ast.BoolOp):
-            parts = [self.expr(v, cur) for v in e.values]
-            if any(ty != "bool" for _, ty in parts):
-                fail(e, "boolop types")
             op = " && " if isinstance(e.op, ast.And) else " || "
-            return "(" + op.join(t for t, _ in parts) + ")", "bool"
+            parts = []
+            for v in e.values:
+                (t, ty), gs = self.scoped(lambda v=v: self.expr(v, cur))
+                if ty != "bool":
+                    fail(e, "boolop types")
+                if gs:      # short-circuit: the operand is only evaluated when the earlier ones did not decide
+                    if parts:
+                        before = "(" + op.join(parts) + ")" if len(parts) > 1 else parts[0]
+                        pre = f"(negb {before})" if isinstance(e.op, ast.And) else before
+                        self.guard(f"({pre} || {self.conj(gs)})")
+                    else:
+                        for g in gs:
+                            self.guard(g)
+                parts.append(t)
+            return "(" + op.join(parts) + ")", "bool"
+        if isinstance(e, ast.IfExp):
+            (c, tc), gc = self.scoped(lambda: self.expr(e.test, cur))
+            for g in gc:
+                self.guard(g)
+            (a, ta), ga = self.scoped(lambda: self.expr(e.body, cur))
+            (b, tb), gb = self.scoped(lambda: self.expr(e.orelse, cur))
+            if tc != "bool" or ta != tb:
+                fail(e, "conditional expression types")
+            if ga or gb:
+                self.guard(f"(if {c} then {self.conj(ga) if ga else 'true'} else {self.conj(gb) if gb else 'true'})")
+            return f"(if {c} then {a} else {b})", ta
         if isinstance(e, ast.Compare) and len(e.ops) == 1:
             op = e.ops[0]
             lhs, rhs = e.left, e.comparators[0]
             if isinstance(op, (ast.Is, ast.IsNot)) and isinstance(rhs, ast.Constant) and rhs.value is None:
                 t, ty = self.expr(lhs, cur)
-                if ty in ("optint", "optvec"):
+                if ty in ("optint", "optvec", "cyc", "optmat"):
                     s = f"(is_some {t})"
-                elif ty in ("int", "vec"):
+                elif ty in ("int", "vec", "mat"):
                     s = "true"      # narrowed: known not None
                 else:
                     fail(e, "is None on non-optional")
                 return (s if isinstance(op, ast.IsNot) else f"(negb {s})"), "bool"
+            if isinstance(op, ast.Is) and isinstance(rhs, ast.Constant) and rhs.value is True:
+                t, ty = self.expr(lhs, cur)
+                if ty != "bool":
+                    fail(e, "is True on non-bool")
+                return t, "bool"
+            if isinstance(op, ast.Eq) and isinstance(rhs, ast.Constant) and isinstance(rhs.value, str):
+                t, ty = self.expr(lhs, cur)
+                tags = {"fc": "CycFC", "bc": "CycBC", "t": "CycT"}
+                if ty != "cyc" or rhs.value not in tags:
+                    fail(e, "string comparison")
+                return f"(cyc_is {t} {tags[rhs.value]})", "bool"
             if isinstance(op, (ast.In, ast.NotIn)) and isinstance(rhs, ast.Tuple):
                 t, ty = self.expr(lhs, cur)
                 alts = [self.expr(x, cur) for x in rhs.elts]
@@ -259,11 +496,20 @@ class IntTr:
                 return f"(np_lt_s {l} {r})", "bvec"
             fail(e, "comparison")
         if isinstance(e, ast.BinOp):
+            k = self.kr_template(e, cur)
+            if k:
+                return k
             l, tl = self.expr(e.left, cur)
             r, tr = self.expr(e.right, cur)
             ops = {ast.Add: "+", ast.Sub: "-", ast.Mult: "*", ast.FloorDiv: "/", ast.Mod: "mod"}
             if tl == "int" and tr == "int" and type(e.op) in ops:
+                if isinstance(e.op, (ast.FloorDiv, ast.Mod)) and not (
+                        isinstance(e.right, ast.Constant) and isinstance(e.right.value, int) and e.right.value != 0):
+                    self.guard(f"(negb ({r} =? 0))")      # ZeroDivisionError
                 return f"({l} {ops[type(e.op)]} {r})", "int"
+            if tl in ("vec", "nil") and tr in ("vec", "nil") and isinstance(e.op, ast.Add) \
+                    and isinstance(e.left, ast.ListComp) and isinstance(e.right, ast.ListComp):
+                return f"({l} ++ {r})", "vec"      # concatenation of two Python lists
             if tl == "vec" and tr == "int" and isinstance(e.op, ast.Mult):
                 return f"(map (fun x_ => x_ * {r}) {l})", "vec"
             fail(e, "binop")
@@ -282,12 +528,17 @@ class IntTr:
                 if ty == "mat":
                     return f"(np_nrows {t})", "int"
                 fail(e, "shape[0]")
+            if isinstance(e.value, ast.Attribute) and e.value.attr == "shape" and isinstance(e.slice, ast.Constant) and e.slice.value == 1:
+                t, ty = self.expr(e.value.value, cur)
+                if ty == "mat":
+                    return f"(np_ncols {t})", "int"
+                fail(e, "shape[1]")
             # shape[1:]
             if isinstance(e.slice, ast.Slice):
                 t, ty = self.expr(e.value, cur)
                 sl = e.slice
-                if ty == "vec" and sl.upper is None and sl.step is None and isinstance(sl.lower, ast.Constant) and sl.lower.value == 1:
-                    return f"(tl {t})", "vec"
+                if ty in ("vec", "matlist") and sl.upper is None and sl.step is None and isinstance(sl.lower, ast.Constant) and sl.lower.value == 1:
+                    return f"(tl {t})", ty
                 fail(e, "slice")
             a, ta = self.expr(e.value, cur)
             i, ti = self.expr(e.slice, cur)
@@ -300,8 +551,28 @@ class IntTr:
             if ta == "vec" and ti == "bvec":
                 return f"(np_mask {a} {i})", "vec"
             if ta == "vec" and ti == "int":
+                self.guard(f"(idx_ok {a} {i})")           # IndexError
                 return f"(znth 0 {a} {i})", "int"
+            if ta == "matlist" and ti == "int":
+                self.guard(f"(idx_ok {a} {i})")
+                return f"(znth [] {a} {i})", "mat"
             fail(e, "subscript")
+        if isinstance(e, ast.ListComp):
+            # [i for i in range(...)]  (identity comprehension over a range)
+            if len(e.generators) == 1 and not e.generators[0].ifs and isinstance(e.generators[0].target, ast.Name) \
+                    and isinstance(e.elt, ast.Name) and e.elt.id == e.generators[0].target.id \
+                    and isinstance(e.generators[0].iter, ast.Call) and isinstance(e.generators[0].iter.func, ast.Name) \
+                    and e.generators[0].iter.func.id == "range" and not e.generators[0].iter.keywords:
+                ra = [self.expr(a, cur) for a in e.generators[0].iter.args]
+                if any(ty != "int" for _, ty in ra):
+                    fail(e, "range bounds")
+                if len(ra) == 1:
+                    return f"(np_arange 0 {ra[0][0]})", "vec"
+                if len(ra) == 2:
+                    return f"(np_arange {ra[0][0]} {ra[1][0]})", "vec"
+                if len(ra) == 3 and ast.dump(e.generators[0].iter.args[2]) == dump("-1"):
+                    return f"(np_arange_down {ra[0][0]} {ra[1][0]})", "vec"
+            fail(e, "list comprehension")
         if isinstance(e, ast.Call):
             return self.call(e, cur)
         fail(e, "expression")
@@ -319,9 +590,15 @@ class IntTr:
         d = ast.dump(e)
         f = e.func
         # len(x)
+        if isinstance(f, ast.Name) and f.id == "len" and len(e.args) == 1 and isinstance(e.args[0], ast.Attribute) \
+                and e.args[0].attr == "shape":
+            t, ty = self.expr(e.args[0].value, cur)
+            if ty == "mat":
+                return "2", "int"        # a value of type mat stands for a 2-d array
+            fail(e, "len(.shape)")
         if isinstance(f, ast.Name) and f.id == "len" and len(e.args) == 1:
             t, ty = self.expr(e.args[0], cur)
-            if ty in ("vec", "bvec", "mat"):
+            if ty in ("vec", "bvec", "mat", "matlist"):
                 return f"(zlen {t})", "int"
             fail(e, "len")
         if isinstance(f, ast.Name) and f.id == "prod" and len(e.args) == 1:
@@ -334,6 +611,38 @@ class IntTr:
             if ty == "vec":
                 return t, "vec"      # normalisation to a 1-d integer array: identity on the model's lists
             fail(e, f.id)
+        if isinstance(f, ast.Name) and f.id == "isinstance" and len(e.args) == 2 and not e.keywords \
+                and isinstance(e.args[1], ast.Name) and e.args[1].id in ("list", "bool"):
+            t, ty = self.expr(e.args[0], cur)
+            if ty in ("mat", "vec", "bool", "int"):
+                # static: a mat/vec stands for an ndarray (never a Python list); a bool for a Python bool
+                return ("true" if (e.args[1].id == "bool" and ty == "bool") else "false"), "bool"
+            fail(e, "isinstance")
+        if isinstance(f, ast.Name) and f.id == "tuple" and len(e.args) == 1 and not e.keywords \
+                and isinstance(e.args[0], ast.Call) and isinstance(e.args[0].func, ast.Name) \
+                and e.args[0].func.id == "reversed" and len(e.args[0].args) == 1 and not e.args[0].keywords:
+            t, ty = self.expr(e.args[0].args[0], cur)
+            if ty in ("matlist", "vec"):
+                return f"(rev {t})", ty
+            fail(e, "tuple(reversed())")
+        if isinstance(f, ast.Name) and f.id == "all" and len(e.args) == 1 and not e.keywords \
+                and isinstance(e.args[0], ast.GeneratorExp):
+            g = e.args[0]
+            if len(g.generators) != 1 or g.generators[0].ifs or g.generators[0].is_async \
+                    or not isinstance(g.generators[0].target, ast.Name):
+                fail(e, "generator form")
+            x = g.generators[0].target.id
+            l, tl_ = self.expr(g.generators[0].iter, cur)
+            if tl_ not in ELEM_TY or x in cur:
+                fail(e, "generator iterable / bound-variable capture")
+            self.fresh += 1
+            xv = f"{x}_{self.fresh}"
+            c2 = dict(cur)
+            c2[x] = (xv, ELEM_TY[tl_])
+            (b, tb), gs = self.scoped(lambda: self.expr(g.elt, c2))
+            if tb != "bool" or gs:
+                fail(e, "generator body (must be a total boolean expression)")
+            return f"(forallb (fun {xv} => {b}) {l})", "bool"
         if isinstance(f, ast.Name) and f.id == "isinstance" and len(e.args) == 2 and ast.dump(e.args[1]) == dump("np.ndarray"):
             t, ty = self.expr(e.args[0], cur)
             if ty == "optvec":
@@ -356,6 +665,28 @@ class IntTr:
             kw = {k.arg: k.value for k in e.keywords}
             if d == dump("np.empty((1,))"):
                 return "[0]", "vec"   # uninitialised length-1 placeholder; every path overwrites it before use
+            if fn == "array" and len(e.args) == 1 and not kw and isinstance(e.args[0], ast.List) and len(e.args[0].elts) == 1 \
+                    and isinstance(e.args[0].elts[0], ast.Call) and isinstance(e.args[0].elts[0].func, ast.Name) \
+                    and e.args[0].elts[0].func.id == "range" and len(e.args[0].elts[0].args) == 1 and not e.args[0].elts[0].keywords:
+                t, ty = self.expr(e.args[0].elts[0].args[0], cur)
+                if ty == "int":
+                    return f"(np_arange 0 {t})", "vec"    # np.array([range(n)]): 1 x n; only ever flattened (setdiff1d)
+                fail(e, "np.array([range(n)])")
+            if fn == "reshape":
+                return self.reshape(e, cur)
+            if fn == "vstack" and len(e.args) == 1 and isinstance(e.args[0], ast.Tuple) and len(e.args[0].elts) == 2 and not kw:
+                a_, ta = self.expr(e.args[0].elts[0], cur)
+                b_, tb = self.expr(e.args[0].elts[1], cur)
+                if ta in ("mat", "nil") and tb in ("mat", "nil"):
+                    self.guard(f"(np_vstack_ok {a_} {b_})")      # ValueError: column counts differ
+                    return f"(np_vstack {a_} {b_})", "mat"
+                fail(e, "np.vstack")
+            if fn == "empty" and not e.args and set(kw) == {"shape"} and isinstance(kw["shape"], ast.Attribute) \
+                    and kw["shape"].attr == "shape":
+                t, ty = self.expr(kw["shape"].value, cur)
+                if ty == "mat":
+                    return f"(np_empty_like {t})", "mat"    # uninitialised array of the same shape
+                fail(e, "np.empty(shape=X.shape)")
             if d in (dump("np.array([], dtype=int)"), dump("np.array([])"), dump("np.empty(shape=(0, len(shape)), dtype=int)")):
                 return "[]", "nil"
             if d == dump("np.ones(shape=X.shape[0])").replace("'X'", repr(self._shape0_name(e))):
@@ -383,6 +714,10 @@ class IntTr:
                 return f"(np_setdiff1d {tx[0]} {tx[1]})", "vec"
             if fn == "argsort" and tys[0] in ("vec", "nil") and len(tys) == 1 and not kw:
                 return f"(np_argsort {tx[0]})", "vec"
+            if fn == "sort" and tys[0] in ("vec", "nil") and len(tys) == 1 and not kw:
+                return f"(np_sort {tx[0]})", "vec"
+            if fn == "where" and tys == ["bvec"] and not kw:
+                return f"(np_where1 {tx[0]})", "vec"     # np.where(mask): used as an index (1-tuple of positions)
             if fn == "empty" and d == dump("np.empty((1,))"):
                 return "[0]", "vec"   # uninitialised length-1 placeholder; every path overwrites it before use
             if fn == "array" and d == dump("np.array([], dtype=int)"):
@@ -397,6 +732,52 @@ class IntTr:
                 return f"(map negb {tx[0]})", "bvec"
             fail(e, "np call")
         fail(e, "call")
+
+    def reshape(self, e, cur):
+        """the two reshape idioms of khatrirao (row index of the model's 2-d list = F-order index of the leading axes):
+             np.reshape(M, newshape=(-1, 1, R)) * np.reshape(P, newshape=(1, -1, R), order="F")   (matched in BinOp)
+             np.reshape(P, newshape=(-1, R), order="F")   ->  np_reshape_rows P R"""
+        kw = {k.arg: k.value for k in e.keywords}
+        if len(e.args) == 1 and set(kw) == {"newshape", "order"} and ast.dump(kw["order"]) == dump("'F'") \
+                and isinstance(kw["newshape"], ast.Tuple) and len(kw["newshape"].elts) == 2 \
+                and ast.dump(kw["newshape"].elts[0]) == dump("-1"):
+            p_, tp = self.expr(e.args[0], cur)
+            r_, tr = self.expr(kw["newshape"].elts[1], cur)
+            if tp == "mat" and tr == "int":
+                self.guard(f"(np_reshape_ok {p_} {r_})")      # ValueError of numpy.reshape
+                return f"(np_reshape_rows {p_} {r_})", "mat"
+        fail(e, "np.reshape template")
+
+    def kr_template(self, e, cur):
+        """np.reshape(M, newshape=(-1, 1, R)) * np.reshape(P, newshape=(1, -1, R), order="F")  ->  np_kr_step P M
+        (entry [a, b, r] = M[a, r] * P[b, r]; as a row list in F order: row a + rows(M) * b)"""
+        if not (isinstance(e, ast.BinOp) and isinstance(e.op, ast.Mult)):
+            return None
+        l, r = e.left, e.right
+        for x in (l, r):
+            if not (isinstance(x, ast.Call) and ast.dump(x.func) == dump("np.reshape") and len(x.args) == 1
+                    and isinstance(x.args[0], ast.Name)):
+                return None
+        m_, p_ = l.args[0].id, r.args[0].id
+        kl = {k.arg: k.value for k in l.keywords}
+        kr = {k.arg: k.value for k in r.keywords}
+        if set(kl) != {"newshape"} or set(kr) != {"newshape", "order"} or ast.dump(kr["order"]) != dump("'F'"):
+            return None
+        sl, sr = kl["newshape"], kr["newshape"]
+        if not (isinstance(sl, ast.Tuple) and isinstance(sr, ast.Tuple) and len(sl.elts) == 3 and len(sr.elts) == 3):
+            return None
+        if [ast.dump(x) for x in sl.elts[:2]] != [dump("-1"), dump("1")] or [ast.dump(x) for x in sr.elts[:2]] != [dump("1"), dump("-1")]:
+            return None
+        if ast.dump(sl.elts[2]) != ast.dump(sr.elts[2]):
+            return None
+        mt, tm = self.expr(l.args[0], cur)
+        pt, tp = self.expr(r.args[0], cur)
+        rt, tr = self.expr(sl.elts[2], cur)
+        if tm != "mat" or tp != "mat" or tr != "int":
+            return None
+        self.guard(f"(np_reshape_ok {mt} {rt})")
+        self.guard(f"(np_reshape_ok {pt} {rt})")
+        return f"(np_kr_step {pt} {mt})", "mat"
 
     # -- statements -------------------------------------------------------------------
     def assigned(self, stmts):
@@ -421,6 +802,8 @@ class IntTr:
                 for n in self.assigned(s.body) + self.assigned(s.orelse):
                     if n not in out:
                         out.append(n)
+            elif isinstance(s, (ast.For, ast.While, ast.With, ast.Try)):
+                fail(s, "loop / block statement nested inside a branch or loop body")
         return out
 
     def reads(self, stmts):
@@ -445,7 +828,7 @@ class IntTr:
         if not stmts:
             return False
         s = stmts[-1]
-        if isinstance(s, (ast.Return, ast.Raise)):
+        if isinstance(s, (ast.Return, ast.Raise, ast.Break)):
             return True
         if isinstance(s, ast.Assert) and isinstance(s.test, ast.Constant) and s.test.value is False:
             return True
@@ -479,12 +862,118 @@ class IntTr:
         return f"let {v} := {t} in\n", cur
 
     def block(self, stmts, cur, tail, live=frozenset()):
-        """translate stmts; `tail(cur)` produces the text for falling off the end"""
+        """translate stmts; `tail(cur)` produces the text for falling off the end.
+        The expressions evaluated by the FIRST statement may raise (IndexError, ZeroDivisionError, reshape): their
+        side conditions are collected while it is translated and guard the whole continuation (-> Err)."""
         if not stmts:
             return tail(cur)
+        txt, gs = self.scoped(lambda: self.block1(stmts, cur, tail, live))
+        if gs:
+            return f"if {self.conj(gs)} then\n{txt}\nelse Err"
+        return txt
+
+    def loop_tuple(self, c, stop, node):
+        """value of one loop iteration: (stop?, loop-carried variables)"""
+        parts = []
+        for n in self.loops[-1]:
+            if n not in c:
+                fail(node, f"{n} may be unbound at the end of the loop body")
+            t, ty = c[n]
+            parts.append(self.coerce(t, ty, self.types[n], node))
+        st = "(" + ", ".join(parts) + ")" if len(parts) > 1 else parts[0]
+        return f"Ok ({'true' if stop else 'false'}, {st})"
+
+    def for_(self, s, rest, cur, tail, live):
+        """for x in L / for i, x in enumerate(L[, k])  ->  np_for over the list; loop-carried variables (assigned in the
+        body and bound before the loop) form the accumulator; `break` stops with the current accumulator"""
+        if s.orelse:
+            fail(s, "for-else")
+        it = s.iter
+        if isinstance(it, ast.Call) and isinstance(it.func, ast.Name) and it.func.id == "enumerate" and not it.keywords \
+                and len(it.args) in (1, 2):
+            l, tl_ = self.expr(it.args[0], cur)
+            k, tk = self.expr(it.args[1], cur) if len(it.args) == 2 else ("0", "int")
+            if tk != "int" or tl_ not in ELEM_TY:
+                fail(s, "enumerate arguments")
+            if not (isinstance(s.target, ast.Tuple) and len(s.target.elts) == 2 and all(isinstance(x, ast.Name) for x in s.target.elts)):
+                fail(s, "enumerate target")
+            targets = [(s.target.elts[0].id, "int"), (s.target.elts[1].id, ELEM_TY[tl_])]
+            ltxt = f"(np_enumerate {k} {l})"
+        else:
+            l, tl_ = self.expr(it, cur)
+            if tl_ not in ELEM_TY or not isinstance(s.target, ast.Name):
+                fail(s, "for iterable / target")
+            targets = [(s.target.id, ELEM_TY[tl_])]
+            ltxt = l
+        assigned = self.assigned(s.body)
+        for n, _ in targets:
+            if n in cur or n in assigned or n == "_":
+                fail(s, f"loop variable {n} is rebound")
+        if len({n for n, _ in targets}) != len(targets):
+            fail(s, "loop targets")
+        after = live | self.reads(rest)
+        carried = []
+        for n in assigned:
+            if n in cur:
+                if n not in self.types:
+                    fail(s, f"variable {n} missing from the type environment")
+                carried.append(n)
+            elif n in after:
+                fail(s, f"{n} is first bound inside the loop and read after it")
+        for n, _ in targets:
+            if n in after:
+                fail(s, f"loop variable {n} is read after the loop")
+        if not carried:
+            fail(s, "loop without effect on variables bound before it")
+        for x in ast.walk(ast.Module(body=s.body, type_ignores=[])):
+            if isinstance(x, (ast.Return, ast.Continue)):
+                fail(x, "return / continue inside a loop body")
+        init = []
+        curb = dict(cur)
+        pats = []
+        for n in carried:
+            t, ty = cur[n]
+            init.append(self.coerce(t, ty, self.types[n], s))
+            self.fresh += 1
+            v = f"{n}_{self.fresh}"
+            pats.append(v)
+            curb[n] = (v, self.types[n])
+        tpat = []
+        for n, ty in targets:
+            self.fresh += 1
+            v = f"{n}_{self.fresh}"
+            tpat.append(v)
+            curb[n] = (v, ty)
+        self.loops.append(carried)
+        live_b = frozenset(after | set(carried) | self.reads(s.body))
+        body = self.block(s.body, curb, lambda c: self.loop_tuple(c, False, s), live_b)
+        self.loops.pop()
+        cur2 = dict(cur)
+        outs = []
+        for n in carried:
+            self.fresh += 1
+            v = f"{n}_{self.fresh}"
+            outs.append(v)
+            cur2[n] = (v, self.types[n])
+
+        def pat(vs):
+            return "'(" + ", ".join(vs) + ")" if len(vs) > 1 else vs[0]
+        ini = "(" + ", ".join(init) + ")" if len(init) > 1 else init[0]
+        return (f"bind (np_for {ltxt} (fun {pat(tpat)} {pat(pats)} =>\n{body}) {ini}) (fun {pat(outs)} =>\n"
+                + self.block(rest, cur2, tail, live) + ")")
+
+    def block1(self, stmts, cur, tail, live=frozenset()):
         s, rest = stmts[0], stmts[1:]
         if isinstance(s, ast.Expr) and isinstance(s.value, ast.Constant):
             return self.block(rest, cur, tail, live)      # stray string
+        if isinstance(s, ast.Break):
+            if not self.loops:
+                fail(s, "break outside a loop")
+            return self.loop_tuple(cur, True, s)
+        if isinstance(s, ast.For):
+            return self.for_(s, rest, cur, tail, live)
+        if isinstance(s, ast.Return) and self.loops:
+            fail(s, "return inside a loop body")
         if isinstance(s, ast.Return) and isinstance(s.value, ast.Call) and len(self.ret) == 1 and self.ret[0] == "mat":
             m = self.match_unravel(s.value, cur)
             if m:
@@ -503,6 +992,10 @@ class IntTr:
         if isinstance(s, ast.Assert):
             if isinstance(s.test, ast.Constant) and s.test.value is False:
                 return "Err"
+            multi = self.narrow_conj(s.test, cur)
+            if multi and all(pos for _, pos in multi):
+                # assert X is not None and Y is not None: the continuation sees X, Y at their non-optional types
+                return self.match_conj(multi, cur, lambda c: self.block(rest, c, tail, live), lambda c: "Err")
             t, ty = self.expr(s.test, cur)
             if ty != "bool":
                 fail(s, "assert")
@@ -675,8 +1168,45 @@ class IntTr:
                 return n, True
         return None
 
+    NARROWED = {"optvec": "vec", "optint": "int", "optmat": "mat"}
+
+    def narrow_conj(self, test, cur):
+        """[(name, positive?), ...] when the test is a conjunction of >= 2 `X is [not] None` atoms on distinct
+        optional-typed variables (translated to one simultaneous match)"""
+        if "narrow_conj" not in self.options:      # opt-in per function (keeps the text of earlier units stable)
+            return None
+        if not (isinstance(test, ast.BoolOp) and isinstance(test.op, ast.And) and len(test.values) >= 2):
+            return None
+        out = []
+        for v in test.values:
+            if not (isinstance(v, ast.Compare) and len(v.ops) == 1 and isinstance(v.left, ast.Name)
+                    and isinstance(v.comparators[0], ast.Constant) and v.comparators[0].value is None
+                    and isinstance(v.ops[0], (ast.Is, ast.IsNot))):
+                return None
+            n = v.left.id
+            if n not in cur or cur[n][1] not in self.NARROWED or n in [x for x, _ in out]:
+                return None
+            out.append((n, isinstance(v.ops[0], ast.IsNot)))
+        return out
+
+    def match_conj(self, multi, cur, true_fn, false_fn):
+        c = dict(cur)
+        pats = []
+        for n, pos in multi:
+            if pos:
+                self.fresh += 1
+                nv = f"{n}_v{self.fresh}"
+                pats.append(f"Some {nv}")
+                c[n] = (nv, self.NARROWED[cur[n][1]])
+            else:
+                pats.append("None")
+        scrut = ", ".join(cur[n][0] for n, _ in multi)
+        return (f"match {scrut} with\n| {', '.join(pats)} =>\n{true_fn(c)}\n| {', '.join('_' for _ in multi)} =>\n"
+                f"{false_fn(cur)}\nend")
+
     def if_(self, s, rest, cur, tail, live):
         nar = self.narrow(s.test, cur)
+        multi = None if nar else self.narrow_conj(s.test, cur)
         body, orelse = s.body, s.orelse
         if nar and not nar[1]:
             body, orelse = orelse, body          # `X is None`  ==  swap the branches of `X is not None`
@@ -691,6 +1221,8 @@ class IntTr:
 
         def mk(true_fn, false_fn):
             """true_fn / false_fn : env -> text"""
+            if multi:
+                return self.match_conj(multi, cur, true_fn, false_fn)
             if nar:
                 otxt, _ = cur[nar[0]]
                 self.fresh += 1
@@ -706,6 +1238,9 @@ class IntTr:
             return mk(lambda c: self.block(body + ([] if body_term else rest), c, tail, live),
                       lambda c: self.block(orelse + ([] if else_term else rest), c, tail, live))
         # join point over the variables assigned in either branch
+        for x in ast.walk(ast.Module(body=body + orelse, type_ignores=[])):
+            if isinstance(x, ast.Break):
+                fail(x, "break inside a branch that continues to a join")
         live2 = frozenset(live | self.reads(rest))
         av = [n for n in dict.fromkeys(self.assigned(body) + self.assigned(orelse)) if n in live2]
         for n in av:
@@ -734,10 +1269,19 @@ class IntTr:
         pat = "'(" + ", ".join(vs) + ")" if len(vs) > 1 else vs[0]
         return f"bind ({head}) (fun {pat} =>\n" + self.block(rest, cur2, tail, live) + ")"
 
-    def func(self, f, fenv):
-        params = [a.arg for a in f.args.args]
-        if f.args.vararg or f.args.kwarg or f.args.kwonlyargs:
+    @staticmethod
+    def params(f):
+        """positional parameters, then `*name` as ONE list-valued parameter, then keyword-only parameters
+        (defaults are not applied: every parameter stays a parameter of the Gallina function)"""
+        if f.args.kwarg or f.args.posonlyargs:
             fail(f, "parameters")
+        return [a.arg for a in f.args.args] + ([f.args.vararg.arg] if f.args.vararg else []) \
+            + [a.arg for a in f.args.kwonlyargs]
+
+    def func(self, f, fenv):
+        params = self.params(f)
+        if f.args.vararg and self.types.get(f.args.vararg.arg) != "matlist":
+            fail(f, "*args parameter must be declared as a list of matrices")
         cur = {}
         sig = []
         for p in params:
@@ -754,15 +1298,23 @@ class IntTr:
         return f"Definition {f.name} {' '.join(sig)} : res ({rty}) :=\n{txt}.\n"
 
 
-def gen_utils(src_root, envpath):
+def gen_utils(src_root, envpath, key="utils", title="pyttb/pyttb_utils.py", imports="Np.NpZ", extern=()):
     env = json.load(open(envpath))
-    out = ["(* GENERATED by tools/pyx2v.py from pyttb/pyttb_utils.py — do not edit *)",
-           "From Coq Require Import List ZArith Bool.", "From PV Require Import Np.NpZ.",
+    out = [f"(* GENERATED by tools/pyx2v.py from {title} — do not edit *)",
+           "From Coq Require Import List ZArith Bool.", f"From PV Require Import {imports}.",
            "Import ListNotations.", "Local Open Scope Z_scope.", ""]
     known = {}
     names = []
     trees = {}
-    for unit in env["utils"]:
+    for k2 in extern:        # functions translated into an imported unit: callable from this one
+        for unit in env[k2]:
+            path = os.path.join(src_root, unit["file"])
+            if path not in trees:
+                trees[path] = find_funcs(ast.parse(open(path).read()))
+            if unit["name"] not in trees[path]:
+                raise Unsupported(f"{unit['file']}: function {unit['name']} not found")
+            known[unit["name"]] = ([unit["types"][a] for a in IntTr.params(trees[path][unit["name"]])], unit["returns"])
+    for unit in env[key]:
         path = os.path.join(src_root, unit["file"])
         if path not in trees:
             trees[path] = find_funcs(ast.parse(open(path).read()))
@@ -775,7 +1327,7 @@ def gen_utils(src_root, envpath):
         # defaults: only the ones declared in the env are accepted (parameter fixed to its default is NOT done:
         # every parameter stays a parameter of the Gallina function)
         out.append(tr.func(f, unit))
-        known[name] = ([unit["types"][a.arg] for a in f.args.args], unit["returns"])
+        known[name] = ([unit["types"][a] for a in IntTr.params(f)], unit["returns"])
         names.append(name)
     return "\n".join(out) + "\n", names
 
@@ -795,13 +1347,19 @@ def main():
     outdir = sys.argv[2] if len(sys.argv) > 2 else os.path.join(os.path.dirname(__file__), "..", "coq", "theories", "Gen")
     here = os.path.dirname(os.path.abspath(__file__))
     status = {}
+    envp = os.path.join(here, "pyx2v_env.json")
     for unit, fn in (("GenHandles", lambda: gen_handles(src)),
-                     ("GenUtils", lambda: gen_utils(src, os.path.join(here, "pyx2v_env.json")))):
+                     ("GenFgSetup", lambda: gen_fg_setup(src)),
+                     ("GenUtils", lambda: gen_utils(src, envp)),
+                     ("GenKernels", lambda: gen_utils(src, envp, "kernels", "pyttb/tensor.py (min_split), pyttb/khatrirao.py",
+                                                      "Np.NpZ Np.NpZ2")),
+                     ("GenUtils2", lambda: gen_utils(src, envp, "utils2", "pyttb/pyttb_utils.py (gather_wrap_dims, tt_union_rows)",
+                                                     "Np.NpZ Np.NpZ2 Gen.GenUtils", extern=("utils",)))):
         try:
             text, names = fn()
             changed = write_if_changed(os.path.join(outdir, unit + ".v"), text)
             status[unit] = {"ok": True, "functions": names, "changed": changed}
-        except (Unsupported, SyntaxError, OSError, KeyError) as ex:
+        except Exception as ex:      # fail closed: whatever goes wrong, the unit is reported as not translated
             status[unit] = {"ok": False, "error": f"{type(ex).__name__}: {ex}"}
     print(json.dumps(status))
     return 0 if all(v["ok"] for v in status.values()) else 2
